@@ -431,7 +431,7 @@ func main() {
 	runner.Main(&runner.Harness{
 		ID:    "C09",
 		Level: "model_checking",
-		Rule: "arrival scripts over {datagram from client A, from client B, wait-for-quiescence, 31 s idle gap} up to length 4 (5 thorough) plus bursts beyond the channel capacities and socket failure, x handler behaviours {echo until end, read k then return, read with a 2-byte buffer, return without reading}; for each, every interleaving of the real servePacket loop, its reader goroutine, the handler goroutines and the timers under delay bounding (every scheduling choice other than 'continue, else lowest thread id' costs one deviation), select alternatives, early timers and pool misses within a joint deviation budget (3 for histories of <=2 datagrams and selected longer ones, 2 otherwise; +1 in thorough); states = distinct observation digests",
+		Rule:  "arrival scripts over {datagram from client A, from client B, wait-for-quiescence, 31 s idle gap} up to length 4 (5 thorough) plus bursts beyond the channel capacities and socket failure, x handler behaviours {echo until end, read k then return, read with a 2-byte buffer, return without reading}; for each, every interleaving of the real servePacket loop, its reader goroutine, the handler goroutines and the timers under delay bounding (every scheduling choice other than 'continue, else lowest thread id' costs one deviation), select alternatives, early timers and pool misses within a joint deviation budget (3 for histories of <=2 datagrams and selected longer ones, 2 otherwise; +1 in thorough); states = distinct observation digests",
 		Assumptions: []string{
 			"the code under test is /repo's working tree with go/chan/select/sync/atomic/time mechanically redirected to the scheduler (tools/gomcrw)",
 			"sequential consistency; interleavings bounded by preemption count, executions run to completion",
@@ -443,6 +443,7 @@ func main() {
 			ex.Total = total(tier)
 			ex.Total = totalFor(tier, sc.Script)
 			ex.Stop = rep.Expired
+			vsched.StateSink = rep.State
 			ex.Explore(func(x *explore.Exec) { check(x, sc, execute(x, sc)) })
 			rep.AddStats(sc, &ex.Stats)
 			if os.Getenv("VERIF_STATS") != "" {
